@@ -48,7 +48,13 @@ type State struct {
 	Last string
 	// Nontrivial is set by the driver when the state satisfies its non-triviality rule.
 	Nontrivial bool
+	// dirty is set when a delivered tx succeeded or a block ran on this branch (the stores may differ
+	// from the parent's); a clean branch has the parent's store contents.
+	dirty bool
 }
+
+// MarkDirty must be called by drivers that write to the stores other than through Deliver / NextBlock.
+func (s *State) MarkDirty() { s.dirty = true }
 
 func (s *State) branch() *State {
 	c := &State{Ctx: Branch(s.Ctx), Depth: s.Depth + 1, TxSeq: s.TxSeq}
@@ -74,6 +80,7 @@ func (s *State) DeliverWith(e *Env, opName string, h Handler, msgs ...sdk.Msg) O
 	out := e.DeliverWith(s.Ctx, fmt.Sprintf("%s#%d", opName, s.TxSeq), h, msgs...)
 	if out.OK {
 		s.TxSeq++
+		s.dirty = true
 	}
 	s.Last = out.Class()
 	return out
@@ -84,6 +91,7 @@ func (s *State) NextBlock(e *Env, dt time.Duration) BlockOutcome {
 	ctx, bo := e.NextBlock(s.Ctx, dt)
 	s.Ctx = ctx
 	s.Last = "block"
+	s.dirty = true
 	return bo
 }
 
@@ -278,6 +286,12 @@ func (x *explorer) step(e *Env, d Driver, s *State, op Op, path []string) (child
 	}()
 	x.trans.Add(1)
 	x.note(op.Name, child.Last)
+	if !child.dirty && sameModel(s, child) {
+		// nothing was written and the model did not move: the child is the parent state (self-loop);
+		// report the step findings, skip hashing and do not expand
+		x.report(fs, append(append([]string{}, path...), op.Name))
+		return child, h, false
+	}
 	h = x.canon(e, d, child)
 	remaining := x.cfg.Depth - child.Depth
 	first, expand := x.vis.visit(h, remaining)
@@ -303,6 +317,13 @@ func (x *explorer) step(e *Env, d Driver, s *State, op Op, path []string) (child
 	}
 	x.report(fs, full)
 	return child, h, expand
+}
+
+func sameModel(a, b *State) bool {
+	if a.Model == nil || b.Model == nil {
+		return a.Model == nil && b.Model == nil
+	}
+	return string(a.Model.Canon()) == string(b.Model.Canon())
 }
 
 func (x *explorer) dfs(e *Env, d Driver, s *State, path []string, splitAt int, tasks *[]task) {
